@@ -18,7 +18,7 @@ let block_of s =
    cfg <fx> <ne> <args: l.e,l.e,...> <program: comma separated prefix tokens>
      S skip | C call | R l e | A l e | D l e ign | Q a b | I n (l e)*n th hasel el
      L isfor n (l e)*n m (l e)*m body hasel el | T body hasel el n handler*n | F body fexc fnorm
-     B break | K continue | X return | Z raise ;  handler = n (l e)*n hastg tl te body
+     B break | K continue | X return | Z raise ;  handler = hastg tl te body
    answer: "<wf> <edges_at_end> <nblocks> <stat>;<stat>;..." in creation order,
            stat = label:kind:entry:block:class   (class N/M/B, X = block detached)  or NONE *)
 let parse_prog (toks : string list) : stmt =
@@ -41,8 +41,8 @@ let parse_prog (toks : string list) : stmt =
     | "T" -> let b = stmt () in let h = bool () in let el = stmt () in
              let n = int_of_string (next ()) in
              let rec hs k = if k = 0 then HNil else
-               let pat = reflist () in let ht = bool () in let tl = nat () in let te = nat () in
-               let hb = stmt () in let rest = hs (k - 1) in HCons (pat, ht, tl, te, hb, rest) in
+               let ht = bool () in let tl = nat () in let te = nat () in
+               let hb = stmt () in let rest = hs (k - 1) in HCons (ht, tl, te, hb, rest) in
              let h' = hs n in Try (b, h, el, h')
     | "F" -> let b = stmt () in let fe = stmt () in let fn = stmt () in TryFin (b, fe, fn)
     | "B" -> Break | "K" -> Continue | "X" -> Return | "Z" -> Raise
